@@ -14,6 +14,58 @@ from pathlib import Path
 from harness.cxx2imp import tokenize, strip_comments, Untranslatable, CORE, find_function, seq
 from harness.cxx2lin import Raw, statements
 
+def statements2(body):
+    """top-level statements: `for (...) {...}`, `if (...) {...} [else {...}]`, and ';'-terminated statements"""
+    out, i, n = [], 0, len(body)
+
+    def block_end(k):
+        d, e = 1, k + 1
+        while d:
+            d += {"{": 1, "}": -1}.get(body[e], 0)
+            e += 1
+        return e
+    while i < n:
+        while i < n and body[i].isspace():
+            i += 1
+        if i >= n:
+            break
+        m = re.match(r"(for|if)\s*\(", body[i:])
+        if m:
+            j = body.index("(", i)
+            d, k = 1, j + 1
+            while d:
+                d += {"(": 1, ")": -1}.get(body[k], 0)
+                k += 1
+            head = body[j + 1:k - 1]
+            while body[k].isspace():
+                k += 1
+            if body[k] != "{":
+                raise Untranslatable(f"{m.group(1)} without a block")
+            e = block_end(k)
+            if m.group(1) == "for":
+                out.append(("for", head, body[k + 1:e - 1]))
+                i = e
+            else:
+                rest = body[e:]
+                m2 = re.match(r"\s*else\s*\{", rest)
+                if m2:
+                    k2 = e + m2.end() - 1
+                    e2 = block_end(k2)
+                    out.append(("if", head, body[k + 1:e - 1], body[k2 + 1:e2 - 1]))
+                    i = e2
+                else:
+                    out.append(("if", head, body[k + 1:e - 1], ""))
+                    i = e
+        else:
+            d, k = 0, i
+            while k < n and not (body[k] == ";" and d == 0):
+                d += {"(": 1, "{": 1, "[": 1, ")": -1, "}": -1, "]": -1}.get(body[k], 0)
+                k += 1
+            out.append(("stmt", body[i:k].strip()))
+            i = k + 1
+    return out
+
+
 IOPS = {"+": "add", "-": "sub", "*": "mul", "<": "lt", "<=": "le", ">": "gt", ">=": "ge", "==": "eq", "!=": "ne"}
 
 
@@ -108,7 +160,11 @@ def pexpr(s):
 
 def block(k, body, ren, pre, hooks):
     out = []
-    for st in statements(body):
+    for st in statements2(body):
+        if st[0] == "if":
+            c = iexpr(k, pexpr(st[1]), ren)
+            out.append(f"(ite {c} {block(k, st[2], dict(ren), pre, hooks)} {block(k, st[3], dict(ren), pre, hooks)})")
+            continue
         if st[0] == "for":
             hm = re.fullmatch(r"\s*I\s+(\w+)\s*=\s*0\s*;\s*(\w+)\s*<\s*(.+?)\s*;\s*\+\+(\w+)\s*", st[1], re.S)
             if not hm or len({hm.group(1), hm.group(2), hm.group(4)}) != 1:
@@ -228,6 +284,31 @@ def k_affine_apply(repo):
     return block(k, norm(body), {}, "", hooks), k
 
 
+def k_affine_compose(repo):
+    text = _src(repo, "algebra/affine.hpp")
+    ptxt, body = find_function(text, r"operator\s*\*", after=r"return matrix<N, N \+ 1, T, I>::operator\*\(r\);")
+    if not re.fullmatch(r"\s*const\s+affine<N,\s*T,\s*I>\s*&\s*m\s*", ptxt):
+        raise Untranslatable(f"affine operator*(affine): parameter list {ptxt!r}")
+    k = K()
+    # the callee's variables first (rows, inner, columns of the (N+1) x (N+1) product), then the caller's own N
+    for n in ("N", "M", "P", "mm.i", "mm.j", "mm.k", "n"):
+        k.i(n)
+    for n in ("m1", "m2", "r", "THIS", "m", "o"):
+        k.a(n)
+
+    def prod(mt, ren):
+        if (mt.group(1), mt.group(2)) != ("m1", "m2"):
+            raise Untranslatable("factors of the matrix product")
+        s, _ = k_matmul(repo, k, "mm.", ("m1", "m2", "r"))
+        dim = "(bin add S (var 6) (lit 1))"
+        return [f"(iassign 0 {dim})", f"(iassign 1 {dim})", f"(iassign 2 {dim})", s]
+    hooks = [(r"matrix<N \+ 1, N \+ 1, T, I> m1, m2", lambda mt, r: []),
+             (r"matrix<N \+ 1, N \+ 1, T, I> r = (\w+) \* (\w+)", prod),
+             (r"matrix<N, N \+ 1, T, I> o", lambda mt, r: []),
+             (r"return o", lambda mt, r: [])]
+    return block(k, norm(body), {"N": "n"}, "", hooks), k
+
+
 def _with_identity(repo, fn):
     text = _src(repo, "algebra/affine.hpp")
     ptxt, body = find_function(text, r"\b" + fn)
@@ -253,6 +334,7 @@ KERNELS = {
     "matmul": (lambda repo: k_matmul(repo), "algebra/matrix.hpp operator*"),
     "identity": (lambda repo: k_identity(repo), "algebra/matrix.hpp identity()"),
     "affine_apply": (k_affine_apply, "algebra/affine.hpp operator*(vector), matrix product inlined"),
+    "affine_compose": (k_affine_compose, "algebra/affine.hpp operator*(affine), matrix product inlined"),
     "translation": (lambda repo: _with_identity(repo, "translation"), "algebra/affine.hpp translation(), identity() inlined"),
     "scaling": (lambda repo: _with_identity(repo, "scaling"), "algebra/affine.hpp scaling(), identity() inlined"),
 }
